@@ -202,7 +202,7 @@ def limits_oracle(ds, base, pts):
     from sklearn.decomposition import PCA
     from sklearn.linear_model import LinearRegression
     X, k = ds["X"], base["k"]
-    done = dict(pca=0, regression=0)
+    done = dict(pca=0, regression=0, regression_default=0)
     p1 = [q for q in pts if q["a"] == 1.0]
     if p1:
         est = p1[0]["rec"]["est"]
@@ -223,6 +223,29 @@ def limits_oracle(ds, base, pts):
                 return "mixing=1: reconstruction differs from PCA's (max dev %.3g)" % np.abs(xr - xp).max(), done
             done["pca"] = 1
     p0 = [q for q in pts if q["a"] == 0.0]
+    if p0 and base["reg"] == "default" and not base.get("y1d"):
+        # the DOCUMENTED default regressor is Ridge(alpha=1e-6, fit_intercept=False, tol=1e-12): with k >= rank Yhat
+        # the predictions at mixing = 0 are the projection of Y onto span(Yhat) = Yhat + O(alpha / s_min(X)^2) |Yhat|
+        rec = p0[0]["rec"]
+        ref, _ = X4.reference_regression(ds, base)
+        sx = np.linalg.svd(X, compute_uv=False)
+        sx = sx[sx > 1e-10 * sx[0]]
+        if ref is not None and sx[-1] ** 2 >= 1e-2:
+            syh = np.linalg.svd(ref, compute_uv=False)
+            rank = int(np.sum(syh > 1e-9 * max(1.0, syh[0])))
+            Sk0 = p0[0].get("Sk")
+            if Sk0 is None:
+                Sk0 = np.linalg.svd(ref @ ref.T, compute_uv=False)
+            if k >= rank and np.any(np.asarray(Sk0)[rank:k] > P.TOL / 10):
+                done["regression_skipped_noise_above_tol"] = 1
+            elif k >= rank and not np.any((syh ** 2 > P.TOL / 10) & (syh ** 2 < P.TOL * 1e3)):
+                with warnings.catch_warnings():
+                    warnings.simplefilter("ignore")
+                    got = np.asarray(rec["est"].predict(X4.obs_ds(ds)["X"])).reshape(ds["n"], -1)
+                if np.abs(got - ref).max() > 1e-3 * (1 + np.abs(ds["Y"]).max()):
+                    return ("mixing=0, default regressor: predictions differ from the documented default regression "
+                            "Ridge(alpha=1e-6, fit_intercept=False) of the data (max dev %.3g)" % np.abs(got - ref).max()), done
+                done["regression_default"] = 1
     if p0 and base["reg"] == "linreg":
         rec = p0[0]["rec"]
         Yh = rec["Yh"]
@@ -402,7 +425,8 @@ def run(ctx):
     n_oracle = 0
     nrepr = 50 if ctx.quick else 400
     nsolv = 40 if ctx.quick else 300
-    jobs = [("main", None)] * ndata + [("repr", None)] * nrepr + [("solver", None)] * nsolv
+    nymean = 24 if ctx.quick else 300         # targets of NON-ZERO column mean (X centred): round 6
+    jobs = [("main", None)] * ndata + [("repr", None)] * nrepr + [("solver", None)] * nsolv + [("ymean", None)] * nymean
     for di, (job, _) in enumerate(jobs):
         if job == "repr":
             ds = X4.gen_repr_dataset(rng, ctx.quick)
@@ -413,7 +437,11 @@ def run(ctx):
         else:
             ds = P.gen_dataset(rng, ctx.quick, family=FAMS[di % len(FAMS)] if job == "main" else rng.choice(["tall", "wide", "square", "tall"]))
         g = P.np_rng(rng)
-        base = P.gen_config(rng, ds, reg=rng.choice(REGS if job != "repr" else REGS + ["prefit", "pre_noW"]))
+        if job == "ymean":
+            off = g.normal(size=(1, ds["p"])) * rng.choice([0.5, 3.0, 20.0])
+            ds = dict(ds, Y=ds["Y"] + off, Yn=ds["Yn"] + off, family=ds["family"] + "+ymean")
+        base = P.gen_config(rng, ds, reg=(rng.choice(["default", "default", "linreg", "ridge"]) if job == "ymean" else
+                                          rng.choice(REGS if job != "repr" else REGS + ["prefit", "pre_noW"])))
         base["y1d"] = (job == "repr" and ds["p"] == 1 and rng.random() < 0.5)
         base["solver"] = "full"
         if job == "solver":
@@ -446,6 +474,7 @@ def run(ctx):
         msg, done = limits_oracle(ds, base, pts)
         stats["pca_limit_checked"] += done["pca"]
         stats["regression_limit_checked"] += done["regression"]
+        stats["regression_limit_default_ridge_checked"] = stats.get("regression_limit_default_ridge_checked", 0) + done.get("regression_default", 0)
         stats["regression_limit_skipped_noise_above_tol"] = stats.get("regression_limit_skipped_noise_above_tol", 0) + done.get("regression_skipped_noise_above_tol", 0)
         if msg:
             report(ctx, "C04 fails on the implementation: " + msg,
@@ -508,6 +537,31 @@ def run(ctx):
             cases[cid] = (ds, cfg, [nm for nm, _ in comps], comps)
             cid += 1
         writer.maybe_flush()
+    # ---- LARGE n in sample space (round 6): n x n Gram matrix with n > 512, not a multiple of 512; oracle only
+    stats["large_n_sample_space"] = dict(datasets=0, fits=0, n=[])
+    for n_big in ([513, 700, 1025] if ctx.quick else [513, 600, 700, 1023, 1025, 1100]):
+        ds = X4.gen_large_dataset(rng, n_big)
+        base = dict(a=0.5, k=rng.randint(1, 3), space="sample", solver="full",
+                    reg=rng.choice(["linreg", "default", "linreg"]), alpha=0.1, y1d=False)
+        grid = [0.0, 0.5, 1.0]
+        msg, pts, skipped = grid_oracle(ds, base, grid, stats)
+        n_oracle += 1
+        if isinstance(skipped, str):
+            stats["datasets_skipped"][skipped] = stats["datasets_skipped"].get(skipped, 0) + 1
+            continue
+        ls = stats["large_n_sample_space"]
+        ls["datasets"] += 1
+        ls["fits"] += len(pts)
+        ls["n"].append(n_big)
+        stats["grid_fits"] += len(pts)
+        if not msg:
+            msg, done = limits_oracle(ds, base, pts)
+            stats["pca_limit_checked"] += done["pca"]
+            stats["regression_limit_checked"] += done["regression"]
+            stats["regression_limit_default_ridge_checked"] = stats.get("regression_limit_default_ridge_checked", 0) + done.get("regression_default", 0)
+        if msg:
+            report(ctx, "C04 fails on the implementation: " + msg,
+                   dict(case=case_replay(ds, base, dict(kind="grid", grid=grid))), found_input=True)
     # ---- truncated solvers on mid-size matrices and on > 500 rows ('auto' -> randomized): Python oracle
     nmid = 18 if ctx.quick else 150
     stats["mid_solver"] = dict(datasets=0, big=0, fits=0, resolved={})
